@@ -123,7 +123,7 @@ def from_xir(xir_prog: xir.Program) -> Program:
             else:
                 gate() | regrefs  # pylint:disable=expression-not-assigned,pointless-statement
 
-    prog._target = xir_prog.options.get("_target_", None)  # pylint: disable=protected-access
+    prog._target = xir_prog.options.get("_target_", xir_prog.options.get("target", None))  # pylint: disable=protected-access
 
     if "shots" in xir_prog.options:
         prog.run_options["shots"] = xir_prog.options["shots"]
@@ -207,7 +207,7 @@ def from_xir_to_tdm(xir_prog: xir.Program) -> TDMProgram:
             else:
                 gate() | regrefs  # pylint:disable=expression-not-assigned,pointless-statement
 
-    prog._target = xir_prog.options.get("target", None)  # pylint: disable=protected-access
+    prog._target = xir_prog.options.get("target", xir_prog.options.get("_target_", None))  # pylint: disable=protected-access
 
     if "shots" in xir_prog.options:
         prog.run_options["shots"] = xir_prog.options["shots"]
